@@ -39,6 +39,40 @@ func runC01(c *Ctx) {
 	c01R3(c)
 	c01R4(c)
 	c01TagsGivenNode(c, "C01.R4.root-tagging")
+	c01MapRootChain(c)
+}
+
+// c01MapRootChain: a MapRoot wrapper (WithTargetPlatform) hands its own ctx, source and root to the MapRoot it wraps.
+func c01MapRootChain(c *Ctx) {
+	const R = "C01.R4.maproot-chaining"
+	c.Expect(R, 1)
+	fv := c01FieldOf(c.P, "", "CopyOptions", "MapRoot")
+	if fv == nil {
+		c.LostAnchor(R, "~.CopyOptions.MapRoot")
+		return
+	}
+	n := 0
+	for _, F := range c.P.FuncsOfPkg("") {
+		for _, st := range c04FieldStores(F, fv) {
+			W, _ := c01FuncOfValue(st.Val)
+			if W == nil || len(W.Blocks) == 0 || !inModule(W) {
+				continue
+			}
+			k, bad, pos := c04ForwardsOwnArgs(c.P, W, map[*types.Var]bool{fv: true}, nil)
+			if k == 0 {
+				continue
+			}
+			n++
+			if bad == "" {
+				pos = W.Pos()
+			}
+			c.Check(R, c01OuterName(F)+"$MapRoot|forwards-own-arguments", pos, bad == "",
+				ifelse(bad == "", "the wrapped MapRoot receives the wrapper's own ctx, source and root", bad+": the user's MapRoot maps something else than the resolved root"))
+		}
+	}
+	if n == 0 {
+		c.LostAnchor(R, "a MapRoot wrapper chaining to the previous MapRoot (WithTargetPlatform)")
+	}
 }
 
 // ---------- R1: successor-field coverage ----------
